@@ -293,6 +293,7 @@ def shard_swap(arg):
 
 # ------------------------------------------------------------------------------------ C07 (monotone / nested)
 def check_chain(acc, task, func, state, param, values, base_cfg=None):
+    acc.counters["chains_evaluated"] += 1
     prev = None
     prev_v = None
     for v in values:
